@@ -171,6 +171,7 @@ def run(ctx):
         ('hashcomplement', 2, lambda a, b: etl.hashcomplement(a, b)), ('hashintersection', 2, lambda a, b: etl.hashintersection(a, b)),
     ], 320 if ctx.thorough() else 80)
     util.exotic_key_cases(etl, rng, ctx, 'C08', 200 if ctx.thorough() else 50)
+    util.positional_call_cases(etl, rng, ctx, ['complement', 'intersection'], 120 if ctx.thorough() else 36, 2)
 
 def replay(d):
     print('replay case:', d.get('case'))
